@@ -98,7 +98,7 @@ ParamP(k, m) == LET p == [i \in 1..m |-> (k * 3 + i * i + k * i) % 5]
 ParamW(k, m) == [i \in 1..m |-> ParamP(k, m)[i] - 2]
 
 Amp(m) == IF m <= 3 THEN 3 ELSE IF m = 4 THEN 2 ELSE 1
-GenJ(k, m) == LET n == 3 + (k % 2)
+GenJ(k, m) == LET n == (IF m = 5 THEN 5 ELSE 3) + (k % 2)     \* m = 5: n >= m so that full row rank occurs
                   a == Amp(m)
               IN  [r \in 1..m |-> [c \in 1..n |->
                      ((k * k * 7 + k * (r * 5 + c * 3) + r * 13 + c * 29 + r * c * 11 + (k \div 3) * r) % (2 * a + 1)) - a]]
